@@ -57,7 +57,9 @@ PROPS["C16"] = dict(
     modules=["contracts.C16_rpc", "contracts.C13_lemmas"],
     decided=["framing: the k-th message of a concatenation of encodings is returned as (id_k, body_k) for every "
              "fragmentation of the byte stream by recv", "pairing by call id on client and server", "only "
-             "@allow_rpc methods are callable", "failure mapping usage/non-usage"],
+             "@allow_rpc methods are callable", "failure mapping usage/non-usage",
+             "a peer that vanishes at any byte offset is reported as gone (None), never as an error of the reading loop",
+             "one asyncio task per connection, no shared task group; the reply queue is unbounded"],
     undecided=["'exactly one reply' and 'never blocks' under arbitrary asyncio task interleavings and disconnects",
                "payload pickling (external)"],
     assumptions=["socket.recv / StreamReader.readexactly return bytes of the stream in order"],
@@ -71,7 +73,10 @@ PROPS["C19"] = dict(
     modules=["contracts.C19_status", "contracts.C11_need", "contracts.C19_targets", "contracts.C06_clean", "contracts.C04_noop", "contracts.C03_inputs"],
     decided=["flag logic of report_unbuilt and its helpers (FAILED, PENDING, DRAINED, WARNING bits) against the "
              "property's sentence", "Builder.finalize stores the code", "TUI status translation keeps every reported bit",
-             "classification of glob violations"],
+             "classification of glob violations",
+             "an invalid requested target: reconcile_targets raises exactly for an attached static / volatile target without pending creator chain (with _creator_chain_pending, find_attached, is_regular_output verified)",
+             "a step refused at launch ends FAILED (_new_run: hashes stored before the completion)",
+             "reset_interrupted_steps leaves no step RUNNING / CHECKING without a job"],
     undecided=["that step states in the final database are what the build history should have produced",
                "the recursive attribution walk of the pending summary (assumed closure; partition checked bounded)"],
     assumptions=["ReturnCode is a 6-flag bit set", "exit statuses are below 256"],
@@ -84,7 +89,8 @@ PROPS["C20"] = dict(
     modules=["contracts.C20_paths", "contracts.C13_label"],
     decided=["translate / translate_back designate the same file (lexical resolution) for relative and absolute paths and "
              "work directories; results are normalised; a normalised root-relative path is unchanged; affixes are "
-             "extracted and re-applied exactly; command_and_workdir inverts adjust_label"],
+             "extracted and re-applied exactly; command_and_workdir inverts adjust_label",
+             "get_info and getenv(back=True) hand paths back through translate_back, the latter keeping the affixes (scan)"],
     undecided=["symbolic links in directories crossed by '..' (lexical resolution only)"],
     assumptions=["posixpath contracts POSIX_AXIOMS (validated bounded)", "the director's working directory is the project root"],
     level="The real translate / translate_back / get_affixes / apply_affixes are executed symbolically; path algebra "
@@ -112,7 +118,9 @@ PROPS["C15"] = dict(
     decided=["DBSession: BEGIN IMMEDIATE after exclusive access, exactly one of commit / rollback at exit, access always "
              "given up, statements only on the caller's own transaction, nested use rejected",
              "every @allow_rpc handler performs its mutations inside one `async with self.db` span that contains no await",
-             "the server's receive loop cancels calls in flight only on the exception path and waits for them otherwise"],
+             "the server's receive loop cancels calls in flight only on the exception path and waits for them otherwise",
+             "no handler swallows a rejection inside its transaction, reads in an earlier transaction what it writes in a later one, or opens a writing transaction per loop iteration",
+             "the loop that sends replies never cancels a call in flight"],
     undecided=["in-memory state outside the database (to_be_deleted, dir_queue, hash_queue) is not rolled back",
                "client death at an arbitrary byte offset (covered through the framing contracts of C16 only)"],
     assumptions=["asyncio.Lock mutual exclusion", "SQLite rollback restores the stored tables"],
@@ -129,7 +137,8 @@ PROPS["C10"] = dict(
              "clears the flag; recomputation precedes selection in the same transaction",
              "local equations of _safe / _implied_need", "phase end: job_loop returns only after an empty answer with both "
              "task tables empty and no await in between", "termination: accepted defers strictly increase defer_count up to the cap",
-             "mark_completed wakes the consumers of every output it flips back to BUILT"],
+             "mark_completed wakes the consumers of every output it flips back to BUILT",
+             "the three refreshers of the cached columns execute the stated statements in order, skipped exactly when no step is flagged; the triggers that flag _check_after / _check_ready / _check_safe cover the row events their definitions read"],
     undecided=["that no wake-up of the job loop (asyncio event) is lost (interleaving property)", "the recursive propagation "
                "of _safe / _implied_need (assumed closures); agreement of the cached columns with their definitions after "
                "arbitrary histories and lost wake-ups in the stored graph: bounded stand-in dispatch_is_exact (every schedule "
@@ -147,7 +156,8 @@ PROPS["C03"] = dict(
              "if no input changed unexpectedly, no amended input was unavailable or unfresh and the run succeeded",
              "ran_concurrently: overlap iff both times exist and start <= stop", "completion writes in one transaction; "
              "input re-hash before the command and full re-hash after it; drain on unexpected input changes",
-             "mark_completed: accepted defer keeps the step PENDING, capped"],
+             "mark_completed: accepted defer keeps the step PENDING, capped",
+             "the refusal at launch (_new_run), the drain for unexpected input changes, the re-hash of every input after the command (scan), the stop-time record inside the completion"],
     undecided=["'for all interleavings': a producer finishing between a consumer's read and its amend relies on "
                "monotonic clock readings taken in other tasks (assumed)"],
     assumptions=["a file whose (mode, size, digest) is unchanged has unchanged content (SHA-256)"],
@@ -203,7 +213,8 @@ PROPS["C09"] = dict(
              "from a well-formed graph)", "Node.add_source inserts an edge only if the sink does not reach the source, "
              "unless the caller vouches for it", "_HASH_TRANSITIONS (complete enumeration): role preserved, hashed states "
              "only with a known hash, new state a function of (cause, role, hash known)", "CHECK constraints and aborting "
-             "triggers the invariants lean on are present with the expected conditions"],
+             "triggers the invariants lean on are present with the expected conditions",
+             "change_is_relevant, mark_consuming_steps_pending (detached consumers included), Node.products / _dependencies, a successful skip stores the found output hashes"],
     undecided=["'after every committed change, for any sequence': decided for the listed functions only; the other mutating "
                "functions (delete_detached, reset_for_rerun, mark_completed, update_file_hashes, register_static_tree's "
                "handover) and the composition are covered by the bounded stand-in", "equivalence of the local form of "
@@ -252,7 +263,11 @@ PROPS["C05"] = dict(
              "the completion of a step (output hashes, mark_completed, outcome) is one transaction without await, also on "
              "the skip path (C03)", "DBSession commits or rolls back exactly once per span (C15)",
              "rescan_files re-hashes every attached file that is neither PLANNED nor VOLATILE, an UNCONFIRMED one with the "
-             "cause CONFIRMED, all others as EXTERNAL"],
+             "cause CONFIRMED, all others as EXTERNAL",
+             "initialize_boot resumes exactly when the boot nodes are there (whatever the boot step's state)",
+             "execute_job withdraws the additions of the earlier run before every launch",
+             "the hash-transition table has a row for every external change the start-up scan can find",
+             "the small writers (set_state, set_hash, delete_hash, _reset_step_to_pending, _finalize_failed_run) do what the contracts of their callers assume"],
     undecided=["sentence 1 for every crash point (bounded stand-in: every commit of every short history of the C09 world)",
                "files on disk: leftovers of an interrupted step, the watch phase", "power loss (WAL with synchronous=OFF)"],
     assumptions=["SQLite commits a transaction atomically with respect to a killed process"],
